@@ -63,10 +63,16 @@ def walphase_signature(h, im):
         ws = writes_to(h, im["acked"], im["inflight"] if im["inflight"] >= 0 else None, c)
         if len(ws) < 2 or not c["gok"]:
             return False
-        older = [(i, v) for (i, v) in ws[:-1] if v == c["got"]]
+        if not c["wok"]:
+            return False
+        pos = [n for n, (i, v) in enumerate(ws) if v == c["want"]]
+        if not pos:
+            return False
+        last_n = pos[-1]  # w2: the write whose value should have been recovered
+        older = [(i, v) for (i, v) in ws[:last_n] if v == c["got"]]
         if not older:
             return False
-        last_i = ws[-1][0]
+        last_i = ws[last_n][0]
         if all(partition_of(h, i) == partition_of(h, last_i) for (i, _) in older):
             return False
     return True
@@ -175,12 +181,12 @@ def main(ck):
                 continue
             what = im.get("err") or ("recovered rows differ from the acknowledged last-write-wins state: %s" % json.dumps(im["diff"][:3]))
             fid = None
-            if im.get("err") and "open after crash failed" in im["err"] and im.get("txn", 0) >= 2:
+            if im.get("diff") and code is not None and (code & 2) and walphase_signature(h, im):
+                fid = "C01-walphase"
+            elif im.get("err") and "open after crash failed" in im["err"] and im.get("txn", 0) >= 2:
                 fid = "C01-idxtxn"
             elif parent_torn == WAL_HEAD:
                 fid = "C01-walheadereof"
-            elif im.get("diff") and code is not None and (code & 2) and walphase_signature(h, im):
-                fid = "C01-walphase"
             if fid and ck.match_finding(fid):
                 fail_known[fid] += 1
                 ck.known_finding(fid, {"C01-walphase": "an acknowledged overwrite is reverted to an older acknowledged value after crash + restart (WAL replay order)",
